@@ -63,47 +63,64 @@ MAX_VIOL = 16          # stop exploring one machine after this many failures
 # ---------------------------------------------------------------------------
 # generic helpers (no pyCraft code)
 
+_SLOTS = {}
+
+
 def own_slots(cls):
     """All slot names of cls, base classes first (independent walk)."""
-    out = []
-    for k in reversed(cls.__mro__):
-        s = k.__dict__.get('__slots__', ())
-        if isinstance(s, str):
-            s = (s,)
-        out += [n for n in s if n not in ('__dict__', '__weakref__')]
+    out = _SLOTS.get(cls)
+    if out is None:
+        out = []
+        for k in reversed(cls.__mro__):
+            s = k.__dict__.get('__slots__', ())
+            if isinstance(s, str):
+                s = (s,)
+            out += [n for n in s if n not in ('__dict__', '__weakref__')]
+        _SLOTS[cls] = out
     return out
+
+
+_SCALARS = (int, str, float, bool, type(None))
 
 
 def canon(o, depth=0):
     """Canonical form of an arbitrary object graph; every slot and every
     __dict__ entry takes part, so a new field refines the state."""
+    t = type(o)
+    if t in _SCALARS:
+        return (t.__name__, o)
     if depth > 16:
         raise ToolError('canon: object graph too deep')
-    if o is None or isinstance(o, (bool, int, float, str)):
-        return '%s:%r' % (type(o).__name__, o)
     if isinstance(o, (bytes, bytearray)):
         b = bytes(o)
         body = b.hex() if len(b) <= 64 else \
             hashlib.blake2b(b, digest_size=16).hexdigest()
-        return '%s:%d:%s' % (type(o).__name__, len(b), body)
+        return (t.__name__, len(b), body)
     if isinstance(o, (list, tuple)):
-        return (type(o).__name__,) + tuple(canon(x, depth + 1) for x in o)
+        return (t.__name__,) + tuple([canon(x, depth + 1) for x in o])
     if isinstance(o, dict):
-        return ('dict',) + tuple(sorted(
-            ((canon(k, depth + 1), canon(v, depth + 1))
-             for k, v in o.items()), key=repr))
+        items = [(canon(k, depth + 1), canon(v, depth + 1))
+                 for k, v in o.items()]
+        try:
+            items.sort()
+        except TypeError:
+            items.sort(key=repr)
+        return ('dict',) + tuple(items)
     if isinstance(o, (set, frozenset)):
         return ('set',) + tuple(sorted((canon(x, depth + 1) for x in o),
                                        key=repr))
+    if isinstance(o, _SCALARS):         # subclasses of the scalar types
+        return (t.__name__, repr(o))
     if isinstance(o, type):
-        return 'class:' + o.__qualname__
-    if callable(o) and not hasattr(o, '__slots__') \
-            and not hasattr(o, '__dict__'):
-        return 'callable:' + getattr(o, '__qualname__', type(o).__name__)
-    names = own_slots(type(o)) + sorted(getattr(o, '__dict__', {}))
-    return ('obj', type(o).__qualname__) + tuple(
-        (n, canon(getattr(o, n), depth + 1) if hasattr(o, n) else UNSET)
-        for n in names)
+        return ('class', o.__qualname__)
+    d = getattr(o, '__dict__', None)
+    slots = own_slots(t)
+    if callable(o) and d is None and not slots:
+        return ('callable', getattr(o, '__qualname__', t.__name__))
+    names = slots + sorted(d) if d else slots
+    return ('obj', t.__qualname__) + tuple(
+        [(n, canon(getattr(o, n), depth + 1) if hasattr(o, n) else UNSET)
+         for n in names])
 
 
 def same(a, b):
@@ -189,6 +206,7 @@ class Machine(object):
     name = '?'
     n_inits = 1
     alphabet = ()
+    snapshots = False   # successors from a deep copy instead of a full replay
 
     def key(self, real):
         return canon(real)
@@ -200,9 +218,75 @@ class Machine(object):
         return ''
 
 
-def lockstep(ctx, m, init, ops, sink=None):
+class _Quiet(object):
+    """Stands in for the context while an already-judged prefix is re-run."""
+    @staticmethod
+    def cls(label, n=1):
+        pass
+    outcome = cls
+
+
+QUIET = _Quiet()
+
+
+def report(ctx, m, init, done, why, sink):
+    kind = m.opkind(done[-1]) if done else 'initially'
+    key = '%s: %s%s' % (m.name, why[0], (' after ' + kind) if kind else '')
+    what = ('%s: after replaying [%s] from initial configuration %d the '
+            'real object and the reference disagree: %s' % (
+                m.name, ' ; '.join(m.label(o) for o in done[-8:]), init,
+                why[1]))
+    case = {'part': 'machine', 'machine': m.name, 'init': init,
+            'ops': tolist(done)}
+    if sink is None:
+        ctx.violation(key, what, case)
+    else:
+        sink.append([key, what, case])
+
+
+def snapshot(m, init, ops):
+    """Replay an already-judged history once; -> a pickled (real, ref) from
+    which fresh deep copies are made, or None when that is not possible."""
+    import pickle
+    try:
+        real, ref = m.fresh(init)
+        for op in ops:
+            m.step(real, ref, op, QUIET)
+        blob = pickle.dumps((real, ref), pickle.HIGHEST_PROTOCOL)
+        back = pickle.loads(blob)
+        if m.key(back[0]) != m.key(real) or m.diff(back[0], back[1], QUIET):
+            return None
+        return blob
+    except ToolError:
+        raise
+    except Exception:
+        return None
+
+
+def one_step(ctx, m, init, ops, op, blob, sink):
+    """Apply `op` to a fresh deep copy of the state reached by `ops`."""
+    import pickle
+    ctx.traces += 1
+    try:
+        real, ref = pickle.loads(blob)
+        m.step(real, ref, op, ctx)
+        why = m.diff(real, ref, ctx)
+    except ToolError:
+        raise
+    except Exception as e:
+        why = ('raises %s' % type(e).__name__,
+               'unexpected %s: %s' % (type(e).__name__, e))
+    if why:
+        report(ctx, m, init, list(ops) + [op], why, sink)
+        return None
+    return m.key(real)
+
+
+def lockstep(ctx, m, init, ops, sink=None, every=True):
     """Replay `ops` from initial configuration `init` on fresh objects,
-    comparing with the reference after every transition.
+    comparing with the reference after every transition (every=False: only
+    after the last one - used by the search, where the prefix is a history
+    whose every transition was compared when it was explored).
     -> canonical key of the final real state, or None after a violation.
     diff() returns None or (kind, text); kind is the stable part of the
     violation key.  With `sink`, failures are appended there (the parent
@@ -211,31 +295,24 @@ def lockstep(ctx, m, init, ops, sink=None):
     done = []
     try:
         real, ref = m.fresh(init)
-        why = m.diff(real, ref, ctx)
-        for op in ops:
+        why = m.diff(real, ref, ctx) if every or not ops else None
+        last = len(ops) - 1
+        for n, op in enumerate(ops):
             if why:
                 break
             done.append(op)
-            m.step(real, ref, op, ctx)
-            why = m.diff(real, ref, ctx)
+            if every or n == last:
+                m.step(real, ref, op, ctx)
+                why = m.diff(real, ref, ctx)
+            else:
+                m.step(real, ref, op, QUIET)
     except ToolError:
         raise
     except Exception as e:      # pyCraft raised while applying a legal input
         why = ('raises %s' % type(e).__name__,
                'unexpected %s: %s' % (type(e).__name__, e))
     if why:
-        kind = m.opkind(done[-1]) if done else 'initially'
-        key = '%s: %s%s' % (m.name, why[0], (' after ' + kind) if kind else '')
-        what = ('%s: after replaying [%s] from initial configuration %d the '
-                'real object and the reference disagree: %s' % (
-                    m.name, ' ; '.join(m.label(o) for o in done[-8:]), init,
-                    why[1]))
-        case = {'part': 'machine', 'machine': m.name, 'init': init,
-                'ops': tolist(done)}
-        if sink is None:
-            ctx.violation(key, what, case)
-        else:
-            sink.append([key, what, case])
+        report(ctx, m, init, done, why, sink)
         return None
     return m.key(real)
 
@@ -259,12 +336,16 @@ def w_expand(sub, task):
     sink = sub.extra.setdefault('viol', [])
     for h in histories:
         ops = [m.alphabet[i] for i in h[1:]]
+        blob = snapshot(m, h[0], ops) if m.snapshots else None
         for i, op in enumerate(m.alphabet):
             if len(sink) >= MAX_VIOL:
                 return
             sub.transitions += 1
             sub.count()
-            key = lockstep(sub, m, h[0], ops + [op], sink)
+            if blob is not None:
+                key = one_step(sub, m, h[0], ops, op, blob, sink)
+            else:
+                key = lockstep(sub, m, h[0], ops + [op], sink, every=False)
             if key is None:
                 continue
             k = h64((name, key))
@@ -305,6 +386,8 @@ def explore(ctx, name, max_depth=None, parallel=False, chunk=8):
             raise ToolError('%s: no fixpoint within 64 levels' % name)
         last = max_depth is not None and depth == max_depth
         _KNOWN = known
+        if parallel:        # a few tasks per worker, whatever the level size
+            chunk = max(1, len(frontier) // 96)
         tasks = [(name, frontier[i:i + chunk], last)
                  for i in range(0, len(frontier), chunk)]
         explored += len(frontier) * len(m.alphabet)
@@ -366,6 +449,7 @@ PL_FIELDS = ('uuid', 'name', 'properties', 'gamemode', 'ping', 'display_name')
 class PlayerListMachine(Machine):
     name = 'playerlist'
     n_inits = 2
+    snapshots = True
 
     def __init__(self, tier, seed):
         rnd = random.Random('pl/%d' % seed)
@@ -525,6 +609,7 @@ def fitting_rects(W, H, sizes=(1, 2)):
 
 class MapMachine(Machine):
     """mode 'set': apply_to_map_set on a MapSet; mode 'map': apply_to_map."""
+    snapshots = True
 
     def __init__(self, name, seed, mode, dims, ids, rects, seeded=(0, 1)):
         self.name, self.mode, self.dims, self.seeded = name, mode, dims, seeded
@@ -1125,42 +1210,58 @@ P_BASE = [1.25, -2.5, 3, 45.0, 30.0]
 AXES = ('x', 'y', 'z', 'yaw', 'pitch')
 
 
+def eighths(v):
+    """v as an exact integer number of eighths (the alphabets hold nothing
+    else; see ASSUMPTIONS)."""
+    r = v * 8
+    if r != int(r) or abs(r) >= 1 << 40:
+        raise ToolError('position alphabet value %r is not a small multiple '
+                        'of 1/8' % (v,))
+    return int(r)
+
+
 def position_case(ctx, flags, prior, vals, judge=True):
     L = lib()
-    case = {'part': 'position', 'flags': flags, 'prior': list(prior),
-            'values': list(vals)}
-    key = 'position flags=0x%02X prior=%r values=%r' % (flags, list(prior),
-                                                        list(vals))
+    PAL, PKT = L.types.PositionAndLook, L.cplay.PlayerPositionAndLookPacket
+
+    def fail(text, what='apply raises'):
+        # one key per (flag set, axis, kind); each flag set is enumerated by
+        # one worker in a fixed order, so the recorded case is deterministic
+        ctx.violation(
+            'position flags=0x%02X: %s' % (flags, what), text,
+            {'part': 'position', 'flags': flags, 'prior': list(prior),
+             'values': list(vals)})
     try:
-        pkt = L.cplay.PlayerPositionAndLookPacket(
-            flags=flags, **dict(zip(AXES, vals)))
-        tgt = L.types.PositionAndLook(**dict(zip(AXES, prior)))
+        pkt = PKT(flags=flags, x=vals[0], y=vals[1], z=vals[2], yaw=vals[3],
+                  pitch=vals[4])
+        tgt = PAL(x=prior[0], y=prior[1], z=prior[2], yaw=prior[3],
+                  pitch=prior[4])
         pkt.apply(tgt)
-        got = [getattr(tgt, a) for a in AXES]
+        got = [tgt.x, tgt.y, tgt.z, tgt.yaw, tgt.pitch]
     except Exception as e:
-        ctx.violation(key, 'PlayerPositionAndLookPacket.apply raised %s: %s '
-                      'for flags=0x%02X values=%r on %r'
-                      % (type(e).__name__, e, flags, vals, prior), case)
+        fail('PlayerPositionAndLookPacket.apply raised %s: %s for '
+             'flags=0x%02X values=%r on %r' % (type(e).__name__, e, flags,
+                                               vals, prior))
         return None
     if not judge:
         return got
-    for i, a in enumerate(AXES):
-        rel = bool(flags >> i & 1)
-        exp = Fraction(vals[i]) + (Fraction(prior[i]) if rel else 0)
+    for i in range(5):
+        rel = flags >> i & 1
+        exp = eighths(vals[i]) + (eighths(prior[i]) if rel else 0)
         if i >= 3:
-            exp = exp - 360 * (exp // 360)
+            exp %= 2880                 # 360 degrees, in eighths
         g = got[i]
         ok = isinstance(g, (int, float)) and not isinstance(g, bool) \
-            and g == g and abs(g) != float('inf') and Fraction(g) == exp
+            and g == g and abs(g) < 1e12 and g * 8 == exp
         if i >= 3 and ok:
             ok = 0 <= g < 360
         if not ok:
-            ctx.violation(
-                key, 'flags=0x%02X (%s %s) value %r on prior %r: %s ends as '
-                '%r, expected %s%s' % (
-                    flags, a, 'relative' if rel else 'absolute', vals[i],
-                    prior[i], a, g, float(exp),
-                    ' (wrapped into [0, 360))' if i >= 3 else ''), case)
+            fail('flags=0x%02X (%s %s) value %r on prior %r: %s ends as %r, '
+                 'expected %r%s' % (
+                     flags, AXES[i], 'relative' if rel else 'absolute',
+                     vals[i], prior[i], AXES[i], g, exp / 8.0,
+                     ' (wrapped into [0, 360))' if i >= 3 else ''),
+                 '%s %s wrong' % ('relative' if rel else 'absolute', AXES[i]))
             return got
     return got
 
@@ -1189,7 +1290,7 @@ def w_position(sub, flags):
             if got is None:
                 continue
             sub.transitions += 1
-            sub.state(h64(('pos', tuple(repr(g) for g in got))))
+            sub.state(h64(repr(got)))
             wrapped = any(not 0 <= vals[i] + (prior[i] if flags >> i & 1
                                               else 0) < 360 for i in (3, 4))
             if wrapped:
@@ -1284,14 +1385,16 @@ def reachable(members):
     return reach
 
 
-def judge_flag(ctx, cls, members, reach, value, ident, case):
+def judge_flag(ctx, cls, members, reach, value, ident, case, group=None):
     """members: [(name, int)] defined in the class's own namespace;
-    case: thunk giving the replay record."""
-    key = 'flags %s value=%d' % (ident, value)
+    case: thunk giving the replay record; group: key prefix (one per worker
+    task, so that the recorded case does not depend on worker order)."""
+    key = 'flags %s: ' % (group or ident)
     try:
         got = cls.name_from_value(value)
     except Exception as e:
-        ctx.violation(key, '%s.name_from_value(%d) raised %s: %s'
+        ctx.violation(key + 'raises %s' % type(e).__name__,
+                      '%s.name_from_value(%d) raised %s: %s'
                       % (ident, value, type(e).__name__, e), case())
         return
     representable = value in reach
@@ -1299,15 +1402,18 @@ def judge_flag(ctx, cls, members, reach, value, ident, case):
         if representable:
             ctx.outcome('flags: None for a REPRESENTABLE value')
             ctx.violation(
-                key, '%s.name_from_value(%d) returned None although %d is an '
+                key + ('None for 0' if value == 0 else
+                       'None for an OR of members'),
+                '%s.name_from_value(%d) returned None although %d is an '
                 'OR of members %r (0 is the empty OR)'
                 % (ident, value, value, members), case())
         else:
             ctx.outcome('flags: None for an unrepresentable value')
         return
     if not isinstance(got, str):
-        ctx.violation(key, '%s.name_from_value(%d) returned %r, neither a '
-                      'name nor None' % (ident, value, got), case())
+        ctx.violation(key + 'not a string', '%s.name_from_value(%d) returned '
+                      '%r, neither a name nor None' % (ident, value, got),
+                      case())
         return
     table = dict(members)
     if got == '0' and '0' not in table:
@@ -1321,14 +1427,16 @@ def judge_flag(ctx, cls, members, reach, value, ident, case):
                 v = getattr(cls, part, None) if part.isupper() else None
             if not isinstance(v, int) or isinstance(v, bool):
                 ctx.violation(
-                    key, '%s.name_from_value(%d) = %r: %r is not a member '
-                    'name' % (ident, value, got, part), case())
+                    key + 'prints a non-member', '%s.name_from_value(%d) = '
+                    '%r: %r is not a member name' % (ident, value, got, part),
+                    case())
                 return
             parsed |= v
         ctx.outcome('flags: %d name(s)' % (got.count('|') + 1))
     if parsed != value:
-        ctx.violation(key, '%s.name_from_value(%d) = %r, which parses back '
-                      'to %d' % (ident, value, got, parsed), case())
+        ctx.violation(key + 'name parses back to another value',
+                      '%s.name_from_value(%d) = %r, which parses back to %d'
+                      % (ident, value, got, parsed), case())
 
 
 def judge_enum(ctx, cls, value, ident, case):
@@ -1336,7 +1444,7 @@ def judge_enum(ctx, cls, value, ident, case):
     try:
         got = cls.name_from_value(value)
     except Exception as e:
-        ctx.violation('enum %s value=%d' % (ident, value),
+        ctx.violation('enum %s: raises' % ident,
                       '%s.name_from_value(%d) raised %s: %s'
                       % (ident, value, type(e).__name__, e), case)
         return
@@ -1344,14 +1452,14 @@ def judge_enum(ctx, cls, value, ident, case):
     if got is None:
         ctx.outcome('enum: None')
         if has:
-            ctx.violation('enum %s value=%d' % (ident, value),
+            ctx.violation('enum %s: None for a member value' % ident,
                           '%s.name_from_value(%d) returned None, member(s) '
                           '%r have that value' % (ident, value, has), case)
         return
     ctx.outcome('enum: name')
     if not isinstance(got, str) or got not in dict(members) or \
             dict(members)[got] != value:
-        ctx.violation('enum %s value=%d' % (ident, value),
+        ctx.violation('enum %s: wrong name' % ident,
                       '%s.name_from_value(%d) = %r, which does not name a '
                       'member with that value' % (ident, value, got), case)
 
@@ -1411,7 +1519,10 @@ def w_flags(sub, task):
             judge_flag(sub, cls, members, reach, v, ident,
                        lambda: {'part': 'flags', 'kind': 'gen',
                                 'members': [list(m) for m in members],
-                                'value': v})
+                                'value': v},
+                       group='generated enums %s' % (
+                           'without members' if first is None
+                           else 'with A=%d' % first))
         sub.count(256)
         sub.note_distinct(256)
 
@@ -1527,7 +1638,7 @@ def w_records(sub, idx):
         try:
             o = make_record(cls, slots, t)
         except Exception as e:
-            sub.violation('records %s construct %s' % (ident, brief(t, 80)),
+            sub.violation('records %s: cannot be constructed' % ident,
                           'constructing %s with %r raised %s: %s'
                           % (ident, t, type(e).__name__, e), case(t, t))
             return
@@ -1545,7 +1656,7 @@ def w_records(sub, idx):
                             'raises %s (not judged)' % type(e).__name__)
             else:
                 sub.violation(
-                    'records %s hash %s' % (ident, brief(t, 80)),
+                    'records %s: hash raises' % ident,
                     'hash(%s with fields %r) raised %s: %s'
                     % (ident, t, type(e).__name__, e), case(t, t))
     nfull = len(full)
@@ -1555,7 +1666,7 @@ def w_records(sub, idx):
             it = list(objs[i])
             repr(objs[i])
         except Exception as e:
-            sub.violation('records %s iter/repr %s' % (ident, brief(full[i])),
+            sub.violation('records %s: iter/repr raises' % ident,
                           'iterating or printing %s with fields %r raised '
                           '%s: %s' % (ident, full[i], type(e).__name__, e),
                           case(full[i], full[i]))
@@ -1565,7 +1676,7 @@ def w_records(sub, idx):
                          if k.__dict__.get('__slots__')) <= 1
             if single or sorted(map(repr, it)) != sorted(map(repr, full[i])):
                 sub.violation(
-                    'records %s iter %s' % (ident, brief(full[i])),
+                    'records %s: iteration does not yield the fields' % ident,
                     'list(%s with fields %r) = %r' % (ident, full[i], it),
                     case(full[i], full[i]))
     n = 0
@@ -1580,8 +1691,7 @@ def w_records(sub, idx):
             except AttributeError:
                 if judged:
                     sub.violation(
-                        'records %s eq %s %s' % (ident, brief(a, 80),
-                                                 brief(b, 80)),
+                        'records %s: == raises AttributeError' % ident,
                         '%s: comparing fully assigned records %r and %r '
                         'raised AttributeError' % (ident, a, b), case(a, b))
                 else:
@@ -1590,8 +1700,7 @@ def w_records(sub, idx):
                 continue
             except Exception as e:
                 sub.violation(
-                    'records %s eq %s %s' % (ident, brief(a, 80),
-                                             brief(b, 80)),
+                    'records %s: == raises' % ident,
                     '%s: comparing %r and %r raised %s: %s'
                     % (ident, a, b, type(e).__name__, e), case(a, b))
                 continue
@@ -1604,8 +1713,7 @@ def w_records(sub, idx):
                 ha, hb = hashes[i], hashes[j]
                 if ha[0] == 'h' and hb[0] == 'h' and ha != hb:
                     sub.violation(
-                        'records %s hash %s %s' % (ident, brief(a, 80),
-                                                   brief(b, 80)),
+                        'records %s: equal records hash differently' % ident,
                         '%s: records with fields %r and %r compare equal but '
                         'hash to %d and %d' % (ident, a, b, ha[1], hb[1]),
                         case(a, b))
@@ -1618,8 +1726,7 @@ def w_records(sub, idx):
                 want = fields_equal(a, b)
                 if bool(eq) != want or bool(ne) != (not want):
                     sub.violation(
-                        'records %s eq %s %s' % (ident, brief(a, 80),
-                                                 brief(b, 80)),
+                        'records %s: == is not field-wise' % ident,
                         '%s: records with fields %r and %r: == gives %r and '
                         '!= gives %r, field-wise comparison gives %r'
                         % (ident, a, b, eq, ne, want), case(a, b))
@@ -1699,11 +1806,13 @@ def vector_case(ctx, op, li, ri, a, b):
     f = op_fn(op)
 
     def fail(text):
-        key = 'vectors %s %s%r %s%r' % (
+        expr = 'vectors %s %s%r %s%r' % (
             op, LT.__name__, tuple(a),
             types_[ri].__name__ if binary else '',
             tuple(b) if binary else b)
-        ctx.violation(key, key + ' ' + text, {
+        key = 'vectors %s %s%s' % (op, LT.__name__, (
+            ' ' + types_[ri].__name__) if binary else '')
+        ctx.violation(key, expr + ' ' + text, {
             'part': 'vectors', 'op': op, 'lt': li, 'rt': ri, 'a': list(a),
             'b': list(b) if binary else b})
     try:
@@ -1978,18 +2087,21 @@ def run_laws(ctx, only=None):
 # ---------------------------------------------------------------------------
 
 def _phase(t0, label):
+    """VERIF_DEBUG=1: wall and CPU (incl. workers) per phase on stderr."""
     import os
     import sys
     import time
+    t = os.times()
+    now = (time.time(), t[0] + t[1] + t[2] + t[3])
     if os.environ.get('VERIF_DEBUG'):
-        sys.stderr.write('  [c20] %-28s %6.1fs\n' % (label, time.time() - t0))
-    return time.time()
+        sys.stderr.write('  [c20] %-16s wall %6.1fs  cpu %7.1fs\n'
+                         % (label, now[0] - t0[0], now[1] - t0[1]))
+    return now
 
 
 def run(ctx):
-    import time
     L = lib()
-    t0 = time.time()
+    t0 = _phase((0, 0), 'start')
     # flags first: library discovery must not see classes generated later
     maxn = 4 if ctx.thorough else 3
     tasks = [('lib',), ('gen', None, maxn)] + \
